@@ -1,5 +1,5 @@
 #!/bin/sh
-# Offline build of the verification engines. Safe to run repeatedly.
+# Offline build of both verification engines. Safe to run repeatedly.
 set -e
-cd /verif/sim && cargo build --release 2>&1 | tail -3
-if [ -x /verif/sched/run.sh ]; then /verif/sched/run.sh build 2>&1 | tail -3 || true; fi
+cd /verif/sim && cargo build --release 2>&1 | tail -2
+cd /verif/sched && ./sync-manifest.sh && cargo build --release --offline 2>&1 | tail -2
